@@ -430,6 +430,20 @@ class DictTransactionManager(ModbusTransactionManager):
 
         self.transactions.pop(tid, None)
 
+    def getNextTID(self):
+        """ Retrieve the next unique transaction identifier
+
+        An identifier that still waits for its reply is not handed out
+        again (the counter wraps after 65536 requests).
+
+        :returns: The next unique transaction identifier
+        """
+        for _ in range(0x10000):
+            tid = ModbusTransactionManager.getNextTID(self)
+            if tid not in self.transactions:
+                break
+        return tid
+
 
 class FifoTransactionManager(ModbusTransactionManager):
     """ Impelements a transaction for a manager where the
